@@ -216,6 +216,24 @@ class _NormalForm(ast.NodeTransformer):
             self.count += 1
         return n
 
+    def visit_Expr(self, n):
+        # `yield from g` as a statement  ->  `for _yf in g: yield _yf`  (plain iteration: the library never sends into
+        # or throws into its generators, so delegation and re-yielding are the same)
+        self.generic_visit(n)
+        if isinstance(n.value, ast.YieldFrom):
+            self.count += 1
+            self._yf = getattr(self, '_yf', 0) + 1
+            var = '_yf%d' % self._yf
+            loop = ast.For(target=ast.Name(id=var, ctx=ast.Store()), iter=n.value.value,
+                           body=[ast.Expr(value=ast.Yield(value=ast.Name(id=var, ctx=ast.Load())))], orelse=[])
+            ast.copy_location(loop, n)
+            for x in ast.walk(loop):
+                if not hasattr(x, 'lineno'):
+                    ast.copy_location(x, n)
+            ast.fix_missing_locations(loop)
+            return loop
+        return n
+
     def visit_Assign(self, n):
         self.generic_visit(n)
         v = n.value
